@@ -106,6 +106,10 @@ pub struct HistoryCase {
     /// re-acquire bucket handles from the root for every operation
     pub fresh_handles: bool,
     pub txs: Vec<TxSpec>,
+    /// a short-lived reader accompanies every write transaction (see RunOpts::reader_dance):
+    /// 0 none, 1 closed just before commit, 2 closed right after the writer began
+    #[serde(default)]
+    pub dance: u8,
 }
 
 pub fn fill_bytes(len: usize, seed: u8) -> Vec<u8> {
@@ -347,14 +351,17 @@ pub fn history(max_txs: usize, max_ops: usize, w: OpWeights, kinds: (u32, u32, u
             prop::bool::weighted(0.2),
             seed_tx(ps),
             prop::collection::vec(tx_spec(ps, w, kinds, max_ops), 0..max_txs),
+            // 1 in 8 histories: a short-lived reader around every writer
+            prop_oneof![14 => Just(0u8), 1 => Just(1u8), 1 => Just(2u8)],
         )
-            .prop_map(|(cfg, fresh_handles, first, mut rest)| {
+            .prop_map(|(cfg, fresh_handles, first, mut rest, dance)| {
                 let mut txs = vec![first];
                 txs.append(&mut rest);
                 HistoryCase {
                     cfg,
                     fresh_handles,
                     txs,
+                    dance,
                 }
             })
     })
